@@ -8,9 +8,13 @@ use crate::runner::Property;
 
 pub mod c01;
 pub mod c05;
+pub mod c06;
 pub mod c13;
+pub mod c14;
 pub mod c15;
 pub mod c16;
+pub mod c17;
+pub mod c18;
 
 /// Case strategy: fixed or generated policy, history from `cfg`, `n_words` generated integers.
 pub fn case_strategy(cfg: &GenCfg, policies: Vec<Policy>, n_words: usize) -> BoxedStrategy<Case> {
@@ -33,9 +37,13 @@ pub fn all() -> Vec<Box<dyn Property>> {
     vec![
         Box::new(c01::C01),
         Box::new(c05::C05),
+        Box::new(c06::C06),
         Box::new(c13::C13),
+        Box::new(c14::C14),
         Box::new(c15::C15),
         Box::new(c16::C16),
+        Box::new(c17::C17),
+        Box::new(c18::C18),
     ]
 }
 
